@@ -247,7 +247,10 @@ class Literals(Sub):
 
 
 CONTROLS = [('1', 1), ('"a"', 'a'), ('TRUE', True), ('2*3', 6), ('SUM(1,2)', 3), ('vok', 5), ('"a"&"b"', 'ab'),
-            ('1<2', True), ('-vok', -5), ('FOK(4)', 4), ('""', ''), ('0', 0), ('FALSE', False)]
+            ('1<2', True), ('-vok', -5), ('FOK(4)', 4), ('""', ''), ('0', 0), ('FALSE', False),
+            # TEXT that merely spells an error code is not an error value
+            ('"#N/A"', '#N/A'), ('"#DIV/0!"', '#DIV/0!'), ('"#N"&"/A"', '#N/A'), ('vtna', '#N/A'), ('FOK("#REF!")', '#REF!'),
+            ('IFERROR(1/0,"#N/A")', '#N/A'), ('T("#VALUE!")', '#VALUE!')]
 
 
 class Controls(Sub):
@@ -266,7 +269,16 @@ class Controls(Sub):
         env.nt()
         vars, funcs, cells = bind(env)
         funcs = dict(funcs, FOK=lambda x: x)
+        vars = dict(vars, vtna='#N/A')
         ev = lambda f: env.evo(f, vars=vars, funcs=funcs, cells=cells)
+        if isinstance(val, str) and val.startswith('#'):
+            out = ev('ERROR.TYPE(%s)' % text)
+            if out != ['e', '#N/A']:
+                return fail('ERROR.TYPE(%s) = %r; the argument is text, not an error value: expected #N/A' % (text, out),
+                            ['e', '#N/A'], out)
+            out = ev('ISTEXT(%s)' % text)
+            if out != ['v', True]:
+                return fail('ISTEXT(%s) = %r' % (text, out), True, out)
         for f, want in (('IFERROR(%s,"trap")', val), ('IFNA(%s,"trap")', val), ('ISERROR(%s)', False),
                         ('ISERR(%s)', False), ('ISNA(%s)', False), ('IFERROR(%s,1/0)', val)):
             out = ev(f % text)
